@@ -120,5 +120,49 @@ def Sys.safeFor (dest : Path) : Sys → Bool
   | .close _ => true
   | .rename a b => a != dest && b != dest
   | .unlink a => a != dest
+  | .fsyncDir => true
+
+/-! ### Several writers at once
+
+With concurrent saves of the same path the allowed contents are a set: the
+version present when they began and the complete version of each of them. -/
+
+def visibleOKP (ok : Option Content → Bool) (s : FS) (dest : Path) : Bool := ok (visible s dest)
+
+def crashOKP (ok : Option Content → Bool) (s : FS) (dest : Path) : Bool :=
+  match s.names dest with
+  | none => ok none
+  | some i =>
+    if s.dirty i then ok (some (s.disk i)) && prefixesAll (fun c => ok (some c)) [] (s.cache i)
+    else ok (some (s.cache i))
+
+/-- `firstBad` for an arbitrary set of allowed contents. -/
+def firstBadP (ok : Option Content → Bool) (dest : Path) : FS → List Sys → Option Why
+  | s, es =>
+    if !visibleOKP ok s dest then some .visible
+    else if !crashOKP ok s dest then some .crash
+    else match es with
+      | [] => none
+      | e :: es' => firstBadP ok dest (exec s e) es'
+
+/-- The property at one instant for a set of allowed contents. -/
+def OKAtP (ok : Option Content → Bool) (s : FS) (dest : Path) : Prop :=
+  ok (visible s dest) = true ∧ ∀ c, AfterCrash s dest c → ok c = true
+
+/-- The temporary file holds `c`, synced, and is closed. -/
+def TmpReady (s : FS) (tmp : Path) (c : Content) : Prop :=
+  ∃ i, s.names tmp = some i ∧ s.cache i = c ∧ s.disk i = c ∧ s.dirty i = false ∧
+    ∀ fd off, s.fds fd ≠ some (i, off)
+
+/-- A step of an arbitrary interleaving that cannot hurt `dest`: it does not name
+it, or it renames onto it a temporary file that is complete (one of `V`), synced
+and closed. -/
+def GoodStep (s : FS) (dest : Path) (V : List Content) (e : Sys) : Prop :=
+  e.safeFor dest = true ∨
+    ∃ tmp c, e = .rename tmp dest ∧ tmp ≠ dest ∧ TmpReady s tmp c ∧ c ∈ V
+
+def GoodTrace (dest : Path) (V : List Content) : FS → List Sys → Prop
+  | _, [] => True
+  | s, e :: es => GoodStep s dest V e ∧ GoodTrace dest V (exec s e) es
 
 end AGH.C14
